@@ -8,7 +8,7 @@
    (one row per cell, m or p columns) hold by typing of the generated definitions.
    sigma is the estimators' noise parameter (0 by default): jitter' = max(sigma^2, jitter). *)
 From mathcomp Require Import all_ssreflect all_fingroup all_algebra.
-From MellonV Require Import MatOps MxInst MxPsd MxChol MatGen CondThm FactorThm.
+From MellonV Require Import MatOps MxInst MxPsd MxChol MxSpectral SpectralThm MatGen CondThm FactorThm.
 Set Implicit Arguments.
 Unset Strict Implicit.
 Import Order.TTheory GRing.Theory Num.Theory.
@@ -122,3 +122,19 @@ Print Assumptions C04_never_above_K_standard.
 Print Assumptions C04_never_above_K_full.
 Print Assumptions C04_chol_contract_satisfiable.
 Print Assumptions C04_chol_factor_unique.
+
+(* The spectral theorem for symmetric matrices over a real closed field (lib/MxSpectral.v: a real eigenpair from
+   the determinant of (A - a)^2 + b^2 over F[i], Householder reflection, induction on the dimension) ... *)
+Theorem C04_spectral_theorem (F : rcfType) n (A : 'M[F]_n) :
+  sym A -> exists P : 'M[F]_n, exists d : 'cV[F]_n, P^T *m P = 1%:M /\ A = P *m diagv d *m P^T.
+Proof. exact: spectral. Qed.
+Print Assumptions C04_spectral_theorem.
+
+(* ... gives the decomposition the eigen contract asks for when all n pairs of a positive definite matrix are
+   requested (full-rank request: nothing discarded).  For 0 < p < n the contract follows by selecting p positive
+   eigenpairs out of this decomposition; that selection is not formalised. *)
+Theorem C04_eig_contract_full_rank_satisfiable (F : rcfType) n (W : 'M[F]_n) :
+  spd W -> exists s : 'cV[F]_n, exists V : 'M[F]_(n, n), eig_top_of W s V.
+Proof. exact: eig_top_full. Qed.
+Print Assumptions C04_eig_contract_full_rank_satisfiable.
+
